@@ -33,6 +33,7 @@ RULE = (
 RULE += '; items may be None / falsy values; a quarter of the cases run a garbage collection before every pull'
 RULE += '; a second stream of a same-named generator may be created in the same scope and exhausted first'
 RULE += "; the streamed generator receives keyword arguments named like a wrapper's own parameters"
+RULE += "; the second stream's source may be a partial / a callable object"
 LEVEL_TEXT = (
     "Four sub-claims per generated case: (a) the consumer receives exactly the items then the generator's end or its "
     "exception object; (b) probes inside the generator equal the creation environment; (c) the consumer's context "
@@ -140,6 +141,26 @@ def run_case(case) -> Outcome:  # noqa: C901, PLR0912, PLR0915
             yield ("twin", 1)
 
         _twin.__name__ = _twin.__qualname__ = "gen"
+
+        class _TwinSource:
+            """a callable OBJECT as the stream's source (no __name__, no func attribute)"""
+
+            def __call__(self):
+                return _twin()
+
+        def twin_source():
+            kind = case.get("twin")
+            if kind == "partial":
+                import functools
+
+                return functools.partial(_twin)
+            if kind == "object":
+                return _TwinSource()
+            if kind == "partial_object":
+                import functools
+
+                return functools.partial(_TwinSource())
+            return _twin
 
         async def drain_twin():
             if "s2" in holder and "twin" not in obs:
@@ -290,7 +311,7 @@ def run_case(case) -> Outcome:  # noqa: C901, PLR0912, PLR0915
                     holder["creation_fp"] = K.fp()["state"]
                     holder["s"] = ctx.stream(gen, "s", **_GEN_KWARGS[case.get("gen_kwargs", 0) % len(_GEN_KWARGS)])
                     if case.get("twin"):
-                        holder["s2"] = ctx.stream(_twin)
+                        holder["s2"] = ctx.stream(twin_source())
                     if consume == "same":
                         await run_consumer(holder["s"])
                     elif consume != "outside":
@@ -303,7 +324,7 @@ def run_case(case) -> Outcome:  # noqa: C901, PLR0912, PLR0915
                 holder["creation_fp"] = K.fp()["state"]
                 holder["s"] = ctx.stream(gen, "s", **_GEN_KWARGS[case.get("gen_kwargs", 0) % len(_GEN_KWARGS)])
                 if case.get("twin"):
-                    holder["s2"] = ctx.stream(_twin)
+                    holder["s2"] = ctx.stream(twin_source())
                 if consume == "same":
                     await run_consumer(holder["s"])
                 elif consume == "other_scope":
@@ -413,10 +434,10 @@ def run_case(case) -> Outcome:  # noqa: C901, PLR0912, PLR0915
         want_kw = _GEN_KWARGS[case.get("gen_kwargs", 0) % len(_GEN_KWARGS)]
         if "gen_kwargs" in obs and obs["gen_kwargs"] != want_kw:
             out.violate("a", f"C11.a/generator-arguments-changed/{tag}", f"generator received {obs['gen_kwargs']!r}, stream was given {want_kw!r}")
-        twin = 1 if obs.get("twin") is not None else 0
-        if twin and obs["twin"] != [("twin", 0), ("twin", 1)]:
+        twin = 1 if (obs.get("twin") is not None and case.get("twin") in (True, "fn")) else 0  # only then its scope is called "gen"
+        if obs.get("twin") is not None and obs["twin"] != [("twin", 0), ("twin", 1)]:
             out.violate("a", f"C11.a/second-stream-of-the-scope-disturbed/{tag}", f"{obs['twin']!r}")
-        if twin and mode in ("full", "break") and "X_completed@before-stream-end" in obs["events"]:
+        if obs.get("twin") is not None and mode in ("full", "break") and "X_completed@before-stream-end" in obs["events"]:
             out.violate("d", f"C11.d/creating-scope-completed-before-its-streams-ended/{mode}/{consume}", f"{obs['events']}")
         if finished is not None and len(finished) != 1 + twin:
             out.violate("d", f"C11.d/stream-scope-not-completed/{unstarted}/{mode}/{consume}", f"started={len(started)} finished={len(finished)} end={obs['end']!r}")
@@ -462,7 +483,7 @@ def strategy(tier):
             "falsy_items": n >= 2 and (n + ba) % 3 == 0,
             # a garbage collection before every pull: a scope that was left and waits for the stream is held by the stream alone
             "gc_mid": (n + ba) % 4 == 1,
-            "twin": ci in ("X", "XX") and (n + 2 * ba) % 3 == 1,
+            "twin": ci in ("X", "XX") and (n + 2 * ba) % 3 == 1 and ["fn", "partial", "object", "partial_object"][(n + ba) % 4],
             "gen_kwargs": (n * 3 + ba) % 7,  # indices 5, 6 wrap to {} and the first set again
 
         },  # fmt: skip
